@@ -33,7 +33,7 @@
 use self::errors::*;
 use crate::DmntkError;
 use std::convert::TryFrom;
-use uriparse::{RelativeReference, URI};
+use uriparse::URIReference;
 
 /// Optional reference to an element.
 pub type OptHRef = Option<HRef>;
@@ -60,12 +60,15 @@ impl TryFrom<&str> for HRef {
   type Error = DmntkError;
   /// Tries to convert string into [HRef].
   fn try_from(value: &str) -> Result<Self, Self::Error> {
-    if let Ok(relative_reference) = RelativeReference::try_from(value) {
-      let s = relative_reference.to_string();
-      return Ok(Self(if s.starts_with('#') { s.strip_prefix('#').unwrap().to_string() } else { s }));
-    }
-    if let Ok(uri) = URI::try_from(value) {
-      return Ok(Self(uri.to_string()));
+    // the reference is parsed as `URIReference`, because the conversions of parsing
+    // errors in `RelativeReference::try_from` and `URI::try_from` panic for some invalid references
+    if let Ok(uri_reference) = URIReference::try_from(value) {
+      let s = uri_reference.to_string();
+      return Ok(Self(if uri_reference.is_relative_reference() && s.starts_with('#') {
+        s.strip_prefix('#').unwrap().to_string()
+      } else {
+        s
+      }));
     }
     Err(err_invalid_reference(value))
   }
